@@ -251,6 +251,7 @@ package sizes
 // known, commit not yet known) are what makes the delivery order matter; they
 // are obligations at the call site.
 //@ func (*Graph).RegisterCommit
+//@   option assume-pre A-GIT-ORDER
 //@   requires !has(g.commitSizes, oid)
 //@   requires has(g.treeSizes, commit.Tree)
 //@   requires forall j int :: 0 <= j && j < len(commit.Parents) ==> has(g.commitSizes, commit.Parents[j])
@@ -353,6 +354,7 @@ package sizes
 // A tree is registered at most once (second registration panics: no double
 // counting); the rest is initialize.
 //@ func (*Graph).RegisterTree
+//@   option assume-pre A-GIT-REVLIST
 //@   requires !has(g.treeSizes, oid)
 //@   modifies everything
 //@   call 0 initialize as ini
@@ -404,6 +406,7 @@ package sizes
 //@   call 0 maybeFinalize assert (*r).pending == old((*r).pending) - 1 && (*r).size.TagDepth == plus32(old((*r).size.TagDepth), size.TagDepth)
 
 //@ func (*Graph).RegisterTag
+//@   option assume-pre A-GIT-REVLIST
 //@   requires !has(g.tagSizes, oid)
 //@   modifies everything
 
@@ -421,3 +424,67 @@ package sizes
 //@ property C04: newTreeRecord (*treeRecord).addListener (*Graph).RequireTreeSize (*Graph).finalizeTreeSize (*treeRecord).maybeFinalize (*treeRecord).initialize (*treeRecord).initialize$1 (*Graph).RegisterTree (*Graph).GetBlobSize
 //@ property C09: (*treeRecord).initialize (*treeRecord).initialize$1 (*tagRecord).initialize (*tagRecord).initialize$1 (*Graph).RequireTreeSize (*Graph).RequireTagSize
 //@ property C07: (*HistorySize).recordReference (*HistorySize).recordReferenceGroup
+
+// What git delivers is not ours to prove: each listed tree/tag exactly once
+// (A-GIT-REVLIST), parents before children and the tree of a commit before the
+// commit (A-GIT-ORDER, given the request order below), every deferred size
+// eventually delivered (A-LISTENER). These facts are the preconditions of the
+// Register* functions and of HistorySize(); they are assumed at the call
+// sites in ScanRepositoryUsingGraph and named in the trusted base.
+//@ func (*Graph).HistorySize
+//@   option assume-pre A-LISTENER
+//@   requires len(g.treeRecords) == 0 && len(g.tagRecords) == 0
+//@   pure
+//@   ensures result == g.historySize
+
+//@ func NewPathResolver
+//@   requires nameStyle >= 0 && nameStyle <= 2
+//@   pure
+
+//@ func NewGraph
+//@   requires nameStyle >= 0 && nameStyle <= 2
+//@   pure
+//@   ensures result != nil && fresh(result)
+
+// ScanRepositoryUsingGraph (C01 dispatch, C10 error propagation, C18 one
+// Inc() per processed object). Ghost counters count the calls; loops are
+// numbered in source order: 0 headers from rev-list, 1 trees, 2 commits,
+// 3 commit->tree naming, 4 tags, 5 roots.
+//@ func ScanRepositoryUsingGraph
+//@   requires nameStyle >= 0 && nameStyle <= 2
+//@   modifies everything
+//@   option assume-nopanic A-GIT-REVLIST
+//@   ghost nBlob counts RegisterBlob
+//@   ghost nTree counts RegisterTree
+//@   ghost nCommit counts RegisterCommit
+//@   ghost nTag counts RegisterTag
+//@   ghost nRef counts RegisterReference
+//@   ghost nInc counts Progress.Inc
+//@   call 0 ObjectIter).Next as hdr
+//@   call 0 BatchObjectIter).Next as tr
+//@   call 1 BatchObjectIter).Next as co
+//@   call 2 BatchObjectIter).Next as tg
+//@   call 0 Progress.Done assert hdr2 == nil && !hdr1
+//@   loop 0 step hdr1 && hdr2 == nil
+//@   loop 0 step hdr0.ObjectType == "blob" ==> nBlob == prev(nBlob) + 1 && nInc == prev(nInc) + 1 && len(*trees) == prev(len(*trees)) && len(*commits) == prev(len(*commits)) && len(*tags) == prev(len(*tags))
+//@   loop 0 step hdr0.ObjectType == "tree" ==> nBlob == prev(nBlob) && len(*trees) == prev(len(*trees)) + 1 && len(*commits) == prev(len(*commits)) && len(*tags) == prev(len(*tags))
+//@   loop 0 step hdr0.ObjectType == "commit" ==> nBlob == prev(nBlob) && len(*trees) == prev(len(*trees)) && len(*commits) == prev(len(*commits)) + 1 && len(*tags) == prev(len(*tags))
+//@   loop 0 step hdr0.ObjectType == "tag" ==> nBlob == prev(nBlob) && len(*trees) == prev(len(*trees)) && len(*commits) == prev(len(*commits)) && len(*tags) == prev(len(*tags)) + 1
+//@   loop 0 step hdr0.ObjectType == "blob" || hdr0.ObjectType == "tree" || hdr0.ObjectType == "commit" || hdr0.ObjectType == "tag"
+//@   loop 1 invariant nTree == rangeindex + 1
+//@   loop 1 step tr1 && tr2 == nil && tr0.ObjectType == "tree"
+//@   loop 1 step nTree == prev(nTree) + 1 && nInc == prev(nInc) + 1
+//@   loop 2 invariant i >= 0 && i <= len(*commits) && nCommit + i == len(*commits) && nTree == len(*trees)
+//@   loop 2 step co1 && co2 == nil && co0.ObjectType == "commit"
+//@   loop 2 step nCommit == prev(nCommit) + 1 && nInc == prev(nInc) + 1
+//@   loop 3 invariant nCommit == len(*commits) && nTree == len(*trees)
+//@   loop 4 invariant nTag == rangeindex + 1 && nCommit == len(*commits) && nTree == len(*trees)
+//@   loop 4 step tg1 && tg2 == nil && tg0.ObjectType == "tag"
+//@   loop 4 step nTag == prev(nTag) + 1 && nInc == prev(nInc) + 1
+//@   loop 5 invariant nTag == len(*tags) && nCommit == len(*commits) && nTree == len(*trees)
+//@   loop 5 step nInc == prev(nInc) + 1
+//@   ensures result1 == nil ==> nTree == len(*trees) && nCommit == len(*commits) && nTag == len(*tags)
+
+//@ property C01: ScanRepositoryUsingGraph ScanRepositoryUsingGraph$1$1 NewGraph (*Graph).HistorySize
+//@ property C10: ScanRepositoryUsingGraph ScanRepositoryUsingGraph$1$1
+//@ property C18: ScanRepositoryUsingGraph
